@@ -28,8 +28,26 @@ def _analyse(prop, overrides):
         return {"keys": [], "error": "internal: " + "".join(traceback.format_exception_only(type(e), e)).strip()}
 
 
+_REVERTS = None
+
+
+def _revert_edits(key):
+    global _REVERTS
+    if _REVERTS is None:
+        import json
+        with open(os.path.join(os.path.dirname(os.path.abspath(__file__)), "reverts.json")) as fh:
+            _REVERTS = json.load(fh)
+    hits = [r for r in _REVERTS if key in r["subject"]]
+    if len(hits) != 1:
+        raise SyntaxError(f"revert key {key!r} matches {len(hits)} fix commits")
+    return [tuple(e) for e in hits[0]["edits"]]
+
+
 def _apply(case, repo):
-    edits = case.get("edits") or [(case["file"], case["old"], case["new"])]
+    if "revert" in case:
+        edits = _revert_edits(case["revert"])
+    else:
+        edits = case.get("edits") or [(case["file"], case["old"], case["new"])]
     ov = {}
     for file, old, new in edits:
         src = ov.get(file)
